@@ -59,7 +59,24 @@ def make_case(seed, i):
     removed_targets = {}
     for e in range(n_edits):
         r = rng.fork("edit", e)
-        kind = r.weighted([("model", 5), ("import_model", 3 if state.imports else 0), ("manifest", 2), ("break_repair", 2), ("touch", 1)])
+        kind = r.weighted([("model", 5), ("import_model", 3 if state.imports else 0), ("manifest", 2), ("break_repair", 2), ("touch", 1),
+                           ("import_manifest_break_repair", 2 if state.imports else 0)])
+        if kind == "import_manifest_break_repair":
+            # an invalid intermediate state inside a *referenced* package's manifest: an import URL that cannot
+            # be fetched (unsupported scheme, empty path, unreachable git remote), saved and then corrected
+            imp = r.choice(state.all_packages()[:-1])
+            mp = "/w/%s/_package.yml" % imp.dirname
+            if mp in cur:
+                bad_url = r.choice(["ftp://example.org/pkg", "https://example.invalid/org/repo", "file://", "git@example.org:org/repo.git"])
+                good = cur[mp]
+                if "imports:\n" in good:
+                    bad = good.replace("imports:\n", "imports:\n  - %s\n" % bad_url, 1)
+                else:
+                    bad = good.rstrip("\n") + "\nimports:\n  - %s\n" % bad_url
+                edits.append({"kind": "write" if r.chance(0.5) else "atomic", "path": mp, "data": bad, "steps": r.randint(1, 2)})
+                edits.append({"kind": "write" if r.chance(0.5) else "atomic", "path": mp, "data": good, "steps": 1})
+                log.append("break and repair manifest of %s with import url %s" % (imp.dirname, bad_url))
+            continue
         if kind == "model":
             state, l = E.evolve(state, r, r.randint(1, 2), kinds_main)
             log.append("model: " + "; ".join(l))
